@@ -168,7 +168,12 @@ func (s *Scanner) scanString() string {
 		}
 	}
 
-	return string(s.src[offs+1 : s.offset-1])
+	end := s.offset - 1
+	if end < offs+1 {
+		// not terminated right after the opening quote: empty literal
+		end = offs + 1
+	}
+	return string(s.src[offs+1 : end])
 }
 
 // scanEscape parses an escape sequence where rune is the accepted
@@ -260,7 +265,12 @@ func (s *Scanner) scanRawString() string {
 		}
 	}
 
-	lit := s.src[offs+1 : s.offset-1]
+	end := s.offset - 1
+	if end < offs+1 {
+		// not terminated right after the opening quote: empty literal
+		end = offs + 1
+	}
+	lit := s.src[offs+1 : end]
 	if hasCR {
 		lit = stripCR(lit)
 	}
